@@ -1,5 +1,6 @@
 """C06 — the device description read by the client equals the device's configuration."""
 import random
+import re
 import struct
 from common import Prop, hexs, unhex, exc_name
 from ref import ref_frame
@@ -107,7 +108,7 @@ def rand_chan(r, namelen=12):
 
 def rand_chmax(r):
     k = r.random()
-    return 0 if k < 0.08 else 255 if k < 0.10 else r.randrange(1, 6) if k < 0.9 else r.randrange(6, 40)
+    return 0 if k < 0.08 else 255 if k < 0.10 else r.randrange(40, 255) if k < 0.12 else r.randrange(1, 6) if k < 0.9 else r.randrange(6, 40)
 
 
 def rand_byte(r):
@@ -129,32 +130,97 @@ def want_description(chans, flags, rxpadding):
              for i, c in enumerate(chans)])
 
 
+VARIANT_RE = re.compile(r"([cn])(\d*)(?:L(\d+))?$")
+LAT = 0.04      # answer latency of the late reference device (virtual seconds)
+
+
+def parse_variant(variant):
+    """<c|n>[write padding already configured][L<ms>] -> (client class letter, preset padding | None, first-answer delay | None)"""
+    m = VARIANT_RE.match(variant)
+    if not m:
+        raise ValueError(variant)
+    return m.group(1), (int(m.group(2)) if m.group(2) else None), (int(m.group(3)) / 1000.0 if m.group(3) else None)
+
+
+def late_device(chans, flags, rxpadding, first_delay):
+    """the reference device with an answer latency: every answer reaches the client LAT seconds after the request; the
+    answer to the FIRST common-info request takes `first_delay` seconds (longer than the client's 1 s time-out, so the
+    client asks again and gets two common-info responses).  Both answers are correct and complete; nothing else about
+    the device differs from harness/refdev.py::RefDevice."""
+    import refdev
+
+    class LateDevice(refdev.RefDevice):
+        def __init__(self, *a, **kw):
+            self._rx = bytearray()
+            self.pending = []
+            self.seq = 0
+            self.first_delay = first_delay
+            super().__init__(*a, **kw)
+
+        @property
+        def rx(self):
+            due = [x for x in self.pending if x[0] <= self.now() + 1e-9]
+            if due:
+                self.pending = [x for x in self.pending if x[0] > self.now() + 1e-9]
+                for _, _, data in sorted(due, key=lambda x: (x[0], x[1])):
+                    self._rx += data
+            return self._rx
+
+        @rx.setter
+        def rx(self, v):
+            self._rx = v
+
+        def _send(self, fid, payload):
+            d = LAT
+            if fid == refdev.CMNINFO and self.first_delay is not None:
+                d, self.first_delay = self.first_delay, None
+            self.seq += 1
+            self.pending.append((self.now() + d, self.seq, self.codec.create(fid, payload)))
+
+    return LateDevice(chans, flags=flags, rxpadding=rxpadding)
+
+
+def read_description2(h):
+    """the description through the accessor of the handler itself (`NxscopeHandler.dev_channel_get`) when it has one"""
+    if not hasattr(h, "dev_channel_get"):
+        return None
+    d = h.dev
+    return (d.data.chmax, d.data.flags, d.data.rxpadding, d.data.div_supported, d.data.ack_supported,
+            [(c.data.chan, c.data.en, c.data._type, c.data.vdim, c.data.div, c.data.mlen, c.data.name, c.data.dtype, c.data.critical)
+             for c in (h.dev_channel_get(i) for i in range(d.data.chmax))])
+
+
 def connect_once(chans, flags, rxpadding, variant="c"):
-    """one connect() of a fresh client (variant: c = CommHandler, n = NxscopeHandler, optional digits = a write padding
-    already configured on the interface); returns (description tuple | exception, sim errors)"""
+    """one connect() of a fresh client (variant: see parse_variant); returns (description tuple | exception, sim errors,
+    description through the handler's own channel accessor | None)"""
     import vsim
     import refdev
     res = {}
+    cls, preset, late = parse_variant(variant)
 
     def scenario(sim):
         from nxslib.nxscope import NxscopeHandler
         from nxslib.comm import CommHandler
         from nxslib.proto.parse import Parser
-        dev = refdev.RefDevice(chans, flags=flags, rxpadding=rxpadding)
+        if late is None:
+            dev = refdev.RefDevice(chans, flags=flags, rxpadding=rxpadding)
+        else:
+            dev = late_device(chans, flags, rxpadding, late)
         link = refdev.make_link(sim, dev)
-        if variant[1:]:
-            link.write_padding = int(variant[1:])
-        h = NxscopeHandler(link, Parser()) if variant[0] == "n" else CommHandler(link, Parser())
+        if preset is not None:
+            link.write_padding = preset
+        h = NxscopeHandler(link, Parser()) if cls == "n" else CommHandler(link, Parser())
         try:
             h.connect()
             res["got"] = read_description(h)
+            res["got2"] = read_description2(h)
         finally:
             h.disconnect()
 
     rr, sim = vsim.run_sim(scenario, real_limit=30.0)
     if isinstance(rr, BaseException):
-        return rr, sim.errors
-    return res.get("got"), sim.errors
+        return rr, sim.errors, None
+    return res.get("got"), sim.errors, res.get("got2")
 
 
 def fmt_description(d):
@@ -197,25 +263,42 @@ def session_description(seed):
         from nxslib.comm import CommHandler
         from nxslib.proto.parse import Parser
         n = rand_chmax(r)
-        dev = refdev.RefDevice(rand_chans(n), flags=rand_byte(r), rxpadding=rand_byte(r))
+        late = r.choice([1.02, 1.06, 1.08]) if r.random() < 0.35 else None
+        if late is not None:
+            # a device with an answer latency whose first common-info answer comes after the client's time-out; asks
+            # for no rx padding, or for exactly the padding the interface already has, half of the time
+            n = max(n, 2) if n < 40 else n
+            rxp = r.choice([0, 0, 8, rand_byte(r)])
+            dev = late_device(rand_chans(n), rand_byte(r), rxp, late)
+        else:
+            rxp = rand_byte(r)
+            dev = refdev.RefDevice(rand_chans(n), flags=rand_byte(r), rxpadding=rxp)
         link = refdev.make_link(sim, dev)
         if r.random() < 0.4:
-            link.write_padding = r.choice([2, 8, 32, 255])        # a padding already configured on the interface
+            link.write_padding = r.choice([2, 8, 32, 255, rxp])   # a padding already configured on the interface
         high = r.random() < 0.5
         h = NxscopeHandler(link, Parser()) if high else CommHandler(link, Parser())
         res["history"] = [f"interface write padding before the first connect: {link.write_padding}"]
+        if late is not None:
+            res["history"].append(f"every answer of the device takes {LAT} s, the first common-info answer of a session {late} s")
         for session in range(r.randrange(2, 4)):
             h.connect()
             got = read_description(h)
+            got2 = read_description2(h)
             want = want_description(dev.chans, dev.flags, dev.rxpadding)
-            if got != want:
-                res["bad"] = (session, want, got, "NxscopeHandler" if high else "CommHandler")
+            if got != want or (got2 is not None and got2 != want):
+                via = "" if got != want else " (read through NxscopeHandler.dev_channel_get)"
+                res["bad"] = (session, want, got if got != want else got2, ("NxscopeHandler" if high else "CommHandler") + via)
                 h.disconnect()
                 return
             res["history"].append(f"session {session + 1} (read correctly, then disconnect): {want!r}"[:700])
             h.disconnect()
             # the device is reconfigured / replaced between sessions (after disconnect every channel is disabled)
             m = len(dev.chans) if r.random() < 0.6 else rand_chmax(r)
+            if late is not None:
+                m = max(m, 2)
+                dev.first_delay = late if r.random() < 0.7 else None
+                dev.pending = []
             dev.chans = rand_chans(m)
             dev.flags = rand_byte(r)
             dev.rxpadding = r.choice([0, rand_byte(r), dev.rxpadding])
@@ -230,7 +313,92 @@ def session_description(seed):
         k, want, got, cls = res["bad"]
         return {"key": "session-description", "seed": seed, "case": f"session seed={seed}",
                 "what": f"after connect() number {k + 1} of the same {cls} object the reported Device/DeviceChannel data "
-                        f"differ from the device's configuration: {describe_diff(want, got)}",
+                        f"differ from the configuration of the (conforming reference) device: {describe_diff(want, got)}",
+                "expected": repr(want)[:1500], "observed": repr(got)[:1500], "history": res.get("history", [])}
+    return None
+
+
+def dummy_session(seed):
+    """sessions of one client object against nxslib's OWN simulated device (`intf/dummy.py::DummyDev`, i.e. the real
+    device-side dispatcher and the real `frame_cmninfo_encode/frame_chinfo_encode` on long-lived `DeviceChannel`
+    objects) built from a random configuration; between the connects the device's enable states / dividers change
+    (written by the client before it disconnects, or set on the device's channel objects).  Judged: after every connect
+    the client's description == the configuration the device holds at that moment.  Only the public constructor
+    `DummyDev(chmax, flags, channels, rxpadding)` and the `.data` attributes of the channel objects handed to it are used."""
+    import vsim
+    r = random.Random(seed)
+    res = {}
+
+    def scenario(sim):
+        from nxslib.nxscope import NxscopeHandler
+        from nxslib.comm import CommHandler
+        from nxslib.proto.parse import Parser
+        from nxslib.intf.dummy import DummyDev
+        from nxslib.dev import DeviceChannel
+        n = r.choice([1, 2, 3, 4, 6, 9]) if r.random() < 0.9 else r.randrange(129, 256)
+        cfg = [rand_chan(r, 12 if n < 50 else 3) for _ in range(n)]
+        objs = [DeviceChannel(i, c["type"], c["vdim"], c["name"], en=c["en"], div=c["div"], mlen=c["mlen"]) for i, c in enumerate(cfg)]
+        flags, rxp = rand_byte(r), rand_byte(r)
+        intf = DummyDev(chmax=n, flags=flags, channels=objs, rxpadding=rxp)
+        high = r.random() < 0.5
+        h = NxscopeHandler(intf, Parser()) if high else CommHandler(intf, Parser())
+        who = "NxscopeHandler" if high else "CommHandler"
+        res["history"] = [f"DummyDev(chmax={n}, flags={flags}, rxpadding={rxp}, channels={cfg!r})"[:1200], f"client: {who}"]
+
+        def held():
+            """the configuration the device holds now: the immutable part as constructed, en / div from its channel objects"""
+            return [dict(c, en=bool(o.data.en), div=int(o.data.div)) for c, o in zip(cfg, objs)]
+        try:
+            for session in range(r.randrange(2, 4)):
+                h.connect()
+                got, got2 = read_description(h), read_description2(h)
+                want = want_description(held(), flags, rxp)
+                if got != want or (got2 is not None and got2 != want):
+                    via = "" if got != want else " (read through NxscopeHandler.dev_channel_get)"
+                    res["bad"] = (session, want, got if got != want else got2, who + via)
+                    return
+                res["history"].append(f"connect {session + 1}: description read correctly (en/div held by the device: "
+                                      f"{[(c['en'], c['div']) for c in held()][:12]})")
+                k = r.random()
+                if k < 0.5:
+                    # the client configures channels, writes, and leaves
+                    cs = sorted(set(r.randrange(n) for _ in range(r.randrange(1, 4))))
+                    v = r.choice([1, 5, 128, 255])
+                    try:
+                        h.ch_enable(cs)
+                        if flags & 1:
+                            h.ch_divider(cs, v)
+                        h.channels_write()
+                        res["history"].append(f"client: ch_enable({cs}); " + (f"ch_divider({cs}, {v}); " if flags & 1 else "")
+                                              + "channels_write(); disconnect()")
+                    except Exception as e:   # the request path is C05's / C07's business, not judged here
+                        res["history"].append(f"client: configuring channels {cs} raised {type(e).__name__}; disconnect()")
+                    h.disconnect()
+                else:
+                    h.disconnect()
+                    # the device's state changes while nobody is connected
+                    ch = []
+                    for i in sorted(set(r.randrange(n) for _ in range(r.randrange(1, 4)))):
+                        objs[i].data.en = r.random() < 0.7
+                        objs[i].data.div = r.choice([0, 1, 5, 128, 255])
+                        ch.append((i, objs[i].data.en, objs[i].data.div))
+                    res["history"].append(f"disconnect(); device channel (id, en, div) set to {ch}")
+        finally:
+            try:
+                h.disconnect()
+            finally:
+                intf.stop = lambda: None      # a late __del__ must not touch the simulation's primitives
+
+    rr, sim = vsim.run_sim(scenario, real_limit=40.0)
+    if isinstance(rr, BaseException) or sim.errors:
+        return {"key": "dummy-session-description", "seed": seed, "case": f"dummy session seed={seed}",
+                "what": "handshake session against DummyDev failed: " + repr(rr)[:300] + repr([(a, repr(b)[:200]) for a, b, _ in sim.errors]),
+                "expected": "-", "observed": "-", "history": res.get("history", [])}
+    if "bad" in res:
+        k, want, got, cls = res["bad"]
+        return {"key": "dummy-session-description", "seed": seed, "case": f"dummy session seed={seed}",
+                "what": f"after connect() number {k + 1} of the same {cls} object to nxslib's simulated device (DummyDev) the "
+                        f"reported Device/DeviceChannel data differ from the configuration the device holds: {describe_diff(want, got)}",
                 "expected": repr(want)[:1500], "observed": repr(got)[:1500], "history": res.get("history", [])}
     return None
 
@@ -258,7 +426,12 @@ class C06(Prop):
             "well-formed UTF-8 (bad lead / continuation bytes, truncated, overlong, surrogates, > U+10FFFF, also after "
             "the NUL), validUtf8 / utf8Encode against CPython on random + structured strings, boundary and random "
             "32-bit return codes, short / wrong-kind frames, whole connect() handshakes of the real client against the "
-            "reference device with every configuration byte from 0..255; distinct = distinct (op,input); non-trivial = all")
+            "reference device with every configuration byte from 0..255 (one device with 129..255 channels also in quick; a "
+            "device with an answer latency whose first common-info answer comes after the client's time-out), sessions of one "
+            "client object against the reconfigured reference device and against nxslib's own DummyDev whose enable states / "
+            "dividers change between the connects, read through Device.channel_get and NxscopeHandler.dev_channel_get; "
+            "channel-info responses are judged by the values an independent decoder and the client read from them (a NUL "
+            "terminator after the name is allowed), not byte by byte; distinct = distinct (op,input); non-trivial = all")
 
     def __init__(self):
         Parser, ParseRecv, ParseRecvCb, self.DParseFrame, self.EParseId, self.Device, self.DeviceChannel = _mods()
@@ -332,8 +505,9 @@ class C06(Prop):
                 yield f"info dack 4 {hexs(struct.pack('<i', r))}", "dack"
         # whole handshakes: every configuration byte from 0..255
         for k in range(80 if T else 16):
-            n = [0, 1, 2, 255][k] if (k < 4 and (T or k < 3)) else rand_chmax(rng)
-            if n == 255 and not T and k >= 4:
+            # k = 3: a device with more than 128 channels (channel ids with the top bit set) also in the quick tier
+            n = [0, 1, 2, 255 if T else rng.randrange(129, 256)][k] if k < 4 else rand_chmax(rng)
+            if n > 40 and not T and k >= 4:
                 n = 7
             chans = [rand_chan(rng, 12 if n < 50 else 3) for _ in range(n)]
             if k == 5 and chans:
@@ -344,6 +518,12 @@ class C06(Prop):
         # an earlier device / set by the user), and one that asks for exactly the padding already set
         for variant, rxp in (("c8", 0), ("n255", 0), ("c16", 16), ("n3", 200)):
             yield connect_line(variant, rand_byte(rng), rxp, [rand_chan(rng) for _ in range(rng.randrange(0, 3))]), "connect-preset-padding"
+        # a device with an answer latency of LAT whose answer to the first common-info request comes after the client's
+        # 1 s time-out (so that two common-info responses arrive), for the paddings above and an ordinary one
+        for variant, rxp in (("cL1020", 0), ("nL1060", 0), ("c16L1080", 16), ("n8L1020", 0), ("cL1060", 32), ("nL1200", 0)) + \
+                ((("c", 0), ("n", 0)) if not T else tuple((rng.choice("cn") + rng.choice(["", "8", "77"]) + f"L{rng.choice([1020, 1060, 1080, 1200])}",
+                                                            rng.choice([0, 0, 8, 77, rand_byte(rng)])) for _ in range(30))):
+            yield connect_line(variant, rand_byte(rng), rxp, [rand_chan(rng) for _ in range(rng.randrange(2, 6))]), "connect-late-answer"
         for v in ([1, 2, 4, 8, 16, 32, 64, 128, 255] if not T else range(0, 256, 5)):
             yield connect_line("c", v, 0, [rand_chan(rng)]), "connect-flags"
             yield connect_line("n", 3, v, [rand_chan(rng)]), "connect-rxpadding"
@@ -362,7 +542,7 @@ class C06(Prop):
                 return "ok " + hexs("".join(chr(int(c)) for c in t[2].split(",")).encode("utf-8", "strict"))
             if t[1] == "connect":
                 variant, flags, rxp, chans = parse_connect_line(t)
-                got, errs = connect_once(chans, flags, rxp, variant)
+                got, errs, _ = connect_once(chans, flags, rxp, variant)
                 if isinstance(got, BaseException):
                     return "err " + exc_name(got)
                 if errs:
@@ -426,11 +606,23 @@ class C06(Prop):
                 if len(viol) >= 3:
                     break
         ev["coverage"]["description_sessions"] = n
+        # the same against nxslib's own simulated device (real device-side encoders on long-lived channel objects)
+        n = 0
+        for _ in range(40 if tier == "thorough" else 10):
+            v = dummy_session(rng.randrange(1 << 30))
+            n += 1
+            if v:
+                viol.append(v)
+                if len([x for x in viol if x["key"] == v["key"]]) >= 3:
+                    break
+        ev["coverage"]["description_sessions_dummydev"] = n
         return viol
 
     def replay(self, obj):
         if obj.get("key") == "session-description":
             return session_description(obj["seed"])
+        if obj.get("key") == "dummy-session-description":
+            return dummy_session(obj["seed"])
         return self.oracle(obj["case"])
 
     def oracle(self, line, impl_out=None):
@@ -454,15 +646,21 @@ class C06(Prop):
                 variant, flags, rxp, chans = parse_connect_line(t)
                 if not (0 <= flags <= 255 and 0 <= rxp <= 255 and len(chans) <= 255):
                     return None
-                got, errs = connect_once(chans, flags, rxp, variant)
+                got, errs, got2 = connect_once(chans, flags, rxp, variant)
                 want = want_description(chans, flags, rxp)
-                who = "NxscopeHandler" if variant[0] == "n" else "CommHandler"
+                cls, preset, late = parse_variant(variant)
+                who = "NxscopeHandler" if cls == "n" else "CommHandler"
+                dev = "the conforming device" + (f" (interface write padding already {preset})" if preset is not None else "") + \
+                    (f" whose answers take {LAT} s and whose first common-info answer takes {late} s" if late is not None else "")
                 if isinstance(got, BaseException) or errs:
-                    return bad("connect-description", f"{who}.connect()/disconnect() against the conforming device failed: "
+                    return bad("connect-description", f"{who}.connect()/disconnect() against {dev} failed: "
                                f"{got!r} {[(a, repr(b)[:200]) for a, b, _ in errs]}", want, "-")
                 if got != want:
-                    return bad("connect-description", f"Device/DeviceChannel data after {who}.connect() differ from the "
-                               f"device's configuration: {describe_diff(want, got)}", want, got)
+                    return bad("connect-description", f"Device/DeviceChannel data after {who}.connect() against {dev} differ from "
+                               f"the device's configuration: {describe_diff(want, got)}", want, got)
+                if got2 is not None and got2 != want:
+                    return bad("connect-description", f"channel data read through {who}.dev_channel_get() after connect() against "
+                               f"{dev} differ from the device's configuration: {describe_diff(want, got2)}", want, got2)
             elif t[1] == "cmn":
                 vals = [int(x) for x in t[2:5]]
                 if not all(0 <= v <= 255 for v in vals):
@@ -507,13 +705,35 @@ class C06(Prop):
                 if not all(0 <= v <= 255 for v in (ty, vdim, div, mlen)) or len(nb) > FRAME_NAME_MAX:
                     return None
                 c = DeviceChannel(7, ty, vdim, name, en=bool(en), div=div, mlen=mlen)
-                f = R.frame_chinfo_encode(c)
-                exp = ref_frame(3, bytes([int(bool(en)), ty, vdim, div, mlen]) + nb)
-                if f != exp:
-                    return bad("chinfo-bytes", "chinfo response bytes", hexs(exp)[:80], hexs(f)[:80])
+                want = (7, bool(en), ty, vdim, div, mlen, name, ty & 0x1F, bool(ty & 0x80))
+                try:
+                    f = R.frame_chinfo_encode(c)
+                except Exception as e:
+                    if len(nb) == FRAME_NAME_MAX:
+                        return bad("chinfo-name-at-frame-limit", f"a channel whose name fills the frame exactly ({FRAME_NAME_MAX} "
+                                   f"bytes of UTF-8, no room for a NUL terminator) cannot be described: the device-side encoder "
+                                   f"raised {type(e).__name__}: {e}", "a channel-info response", exc_name(e))
+                    raise
+                # the response is judged by what it MEANS (the property allows a NUL terminator after the name), not byte by
+                # byte: (1) read by the harness's own codec, (2) read by the client
+                from refdev import SerialCodec
+                fr = SerialCodec().decode_at(bytes(f), 0)
+                if fr is None or fr[2] != len(f) or fr[0] != 3 or len(fr[1]) < 5:
+                    return bad("chinfo-wire", "chinfo response is not one well-formed channel-info frame (start byte, length, "
+                               "id 3, CRC, at least the five fixed bytes)", hexs(ref_frame(3, bytes([int(bool(en)), ty, vdim, div, mlen]) + nb))[:80],
+                               hexs(f)[:80])
+                pl = fr[1]
+                try:
+                    wire_name = pl[5:].decode("utf-8", "strict").split("\0")[0]
+                except UnicodeDecodeError:
+                    wire_name = None
+                wire = (pl[0] != 0, pl[1], pl[2], pl[3], pl[4], wire_name)
+                if wire != (bool(en), ty, vdim, div, mlen, name):
+                    return bad("chinfo-wire", "chinfo response read by an independent decoder (five bytes, then the name as UTF-8 "
+                               "up to a NUL terminator if there is one): (en, type, vdim, div, mlen, name)",
+                               repr((bool(en), ty, vdim, div, mlen, name))[:700], repr(wire)[:700] + " from payload " + hexs(pl)[:80])
                 r = P.frame_chinfo_decode(P.frame.frame_decode(f), 7).data
                 got = (r.chan, r.en, r._type, r.vdim, r.div, r.mlen, r.name, r.dtype, r.critical)
-                want = (7, bool(en), ty, vdim, div, mlen, name, ty & 0x1F, bool(ty & 0x80))
                 if got != want:
                     return bad("chinfo-rt", "chinfo round trip (fields and derived attributes)", want, got)
             elif t[1] == "dch" and int(t[2]) == 3:
